@@ -107,6 +107,62 @@ static bool prog_trylock() {
   return n >= 1 && n <= 6;
 }
 
+// 9. the wider vocabulary (recursive / shared / timed mutex, condition_variable_any, call_once): a correct program
+static bool prog_vocabulary() {
+  std::recursive_mutex rm;
+  std::shared_mutex sm;
+  std::timed_mutex tm;
+  std::condition_variable_any cva;
+  std::once_flag once;
+  int inits = 0, shared_val = 0, got = 0;
+  bool ready = false;
+  auto reader = [&] {
+    std::call_once(once, [&] { inits++; });
+    { std::shared_lock<std::shared_mutex> l(sm); (void)shared_val; }
+    { std::lock_guard<std::recursive_mutex> a(rm); std::lock_guard<std::recursive_mutex> b(rm); got++; }
+    { std::unique_lock<std::timed_mutex> l(tm); cva.wait(l, [&] { return ready; }); }
+  };
+  std::thread a(reader), b(reader);
+  std::call_once(once, [&] { inits++; });
+  { std::unique_lock<std::shared_mutex> l(sm); shared_val = 7; }
+  while (!tm.try_lock_for(std::chrono::milliseconds(1))) std::this_thread::yield();
+  ready = true;
+  tm.unlock();
+  cva.notify_all();
+  a.join(); b.join();
+  return inits == 1 && got == 2;
+}
+
+// 10. polling an atomic flag, with and without yield: terminates on any fair machine, so it must terminate here
+static bool prog_spin() {
+  std::atomic<int> flag{0};
+  std::atomic<int> seen{0};
+  std::thread a([&] { while (flag.load() == 0) std::this_thread::yield(); seen.fetch_add(1); });
+  std::thread b([&] { while (flag.load() == 0) {} seen.fetch_add(1); });
+  flag.store(1);
+  a.join(); b.join();
+  return seen.load() == 2;
+}
+
+// 11. function-local static whose initialiser contains scheduling points, reached by three threads at once
+struct SlowTable {
+  int v[4];
+  SlowTable() { std::mutex m; for (int i = 0; i < 4; i++) { std::lock_guard<std::mutex> l(m); v[i] = i * i; } }
+};
+static int slow_lookup(int i) { static const SlowTable t; return t.v[i]; }
+static int slow_lookup2(int i) { static const SlowTable t; return t.v[i] + 1; }
+static bool prog_magic_static() {
+  static int round = 0;
+  int r1 = 0, r2 = 0;
+  // (a different static on every other call, so that later executions in one process still initialise something)
+  auto f = (round++ & 1) ? slow_lookup : slow_lookup2;
+  int base = f == slow_lookup ? 0 : 1;
+  std::thread a([&] { r1 = f(3); }), b([&] { r2 = f(2); });
+  int r0 = f(1);
+  a.join(); b.join();
+  return r0 == 1 + base && r1 == 9 + base && r2 == 4 + base;
+}
+
 struct Prog { const char *name; bool (*fn)(); bool expect_always_ok; bool needs_spurious; };
 static const Prog PROGS[] = {
     {"correct-handover", prog_correct, true, false},
@@ -117,6 +173,9 @@ static const Prog PROGS[] = {
     {"timed-wait-result-ignored", prog_timed_ignored, false, false},
     {"lock-order-inversion", prog_lock_inversion, false, false},
     {"try_lock", prog_trylock, true, false},
+    {"recursive/shared/timed mutex, cv_any, call_once", prog_vocabulary, true, false},
+    {"polling an atomic (with/without yield): fairness", prog_spin, true, false},
+    {"contended function-local static", prog_magic_static, true, false},
 };
 
 static void quiet_fail(int, const char *) { _exit(42); }
